@@ -55,7 +55,7 @@ DiffKind(a, b) ==
      ELSE (IF F("m") THEN "m" ELSE "") \o (IF F("c") THEN "c" ELSE "") \o (IF F("tg") THEN "g" ELSE "") \o (IF F("x") THEN "x" ELSE "")
 
 OpName == lastop.op
-\* "dirw": a non-opaque upper directory that an earlier mkdir of this run made over an upper whiteout
+\* "dirw": a non-opaque upper directory that an earlier mkdir of this run made over hidden lower entries
 UpClass == LET c == EntryClass(preup, lastop.p) IN IF c = "dir" /\ lastop.ow THEN "dirw" ELSE c
 OpClass == IF lastop.op = "init" THEN "initial" ELSE "upper-" \o UpClass \o "-lower-" \o TopLower(lowers, lastop.p)
 Sig(prop, what) == prop \o "|" \o OpName \o "|" \o what \o "|" \o OpClass
@@ -150,9 +150,10 @@ Step ==
             /\ exp' = AOp(view, OpOf(r), hasUpper, <<"n", ToString(l)>>)
             /\ lastop' = [op |-> r.op, p |-> r.p, st |-> r.st, src |-> IF Has(r, "src") THEN r.src ELSE <<>>, ow |-> r.p \in overwh]
             /\ nfail' = IF r.st # 0 THEN nfail + 1 ELSE nfail
-            \* history: directories made (successfully) over an upper whiteout, until they are removed
+            \* history: directories made (successfully) by mkdir where the lower layers have an entry (which was hidden,
+            \* normally by an upper whiteout), until they are removed
             /\ overwh' = IF r.st # 0 \/ r.p \notin Paths THEN overwh
-                          ELSE IF r.op = "mkdir" /\ EntryClass(upraw, r.p) = "wh" THEN overwh \cup {r.p}
+                          ELSE IF r.op = "mkdir" /\ TopLower(lowers, r.p) \in {"file", "dir", "odir", "sym", "fifo"} THEN overwh \cup {r.p}
                           ELSE IF r.op \in {"rmdir", "unlink", "mkdir"} THEN {q \in overwh : q # r.p /\ ~IsAncestor(r.p, q)}
                           ELSE overwh
             /\ UNCHANGED <<hasUpper, B, fresh, view, lowers, upraw, digests, div>>
